@@ -140,14 +140,16 @@ Definition stats (c : cfg) (gout : bool) : calc :=
     (rollback_std false).
 
 (* ---------------------------------------------------------------- CalcAnamTransform (CalcAnamTransform.cpp:152-313)
-   ACalcDbVarCreator: one Db (= WIn here).  g_mode 0: _flagVars (rawToGaussian...), 1: _flagToFactors (g_n = nfact).
+   ACalcDbVarCreator: one Db (= WIn here).  g_mode 0: _flagVars (rawToGaussianByLocator, and gaussianToRawByLocator
+   since fix C18_1: same bookkeeping, only the direction _flagZToY of the numerical body differs), 1: _flagToFactors
+   (g_n = nfact).  The new variables are created with TEST (fix C18_5).
    (the selectivity outputs _flagDisjKrig/_flagCondExp/_flagUniCond are not modelled)
    Since fix C19_2 _preprocess registers its variables through _addVariableDb. *)
 Definition anam_check (c : cfg) (s : st) : bool :=
   (0 <? locnum (getdb WIn s) L_Z) && (if g_mode c =? 1 then locnum (getdb WIn s) L_Z =? 1 else true) && g_extra_ok c.
 Definition anam (c : cfg) : calc :=
   mkcalc (g_nc c) (anam_check c)
-    (if g_mode c =? 0 then [OAdd WIn 1 (-1) nvar_in (Cst 0) 0%nat] else [OAdd WIn 1 (-1) (K (g_n c)) (Cst 0) 1%nat])
+    (if g_mode c =? 0 then [OAdd WIn 1 (-1) nvar_in (Cst 1) 0%nat] else [OAdd WIn 1 (-1) (K (g_n c)) (Cst 1) 1%nat])
     [OBody 3]
     (OClean 2 ::
      (if g_mode c =? 0 then [ORename WIn no_names L_Z nvar_in 0%nat 0 [] (K 1) true]
